@@ -406,6 +406,16 @@ theorem hex_ring_translated (k : ℕ) :
     ∀ (h : HexCell) (i : ℕ), hexNeighbor h i = Gen.hexAdd h (Gen.hexDirections.getD i (0, 0, 0)) :=
   ⟨rfl, hexRing_eq_walk k, fun _ _ => rfl⟩
 
+/-- **tie to the source of the segment numbering of `hex_segments`**: the model's drawn segments are the statement-by-statement translation
+`Gen.keptCells` of the centre test, the `seg` counter, the ring loops and the `seg not in drop` test; their numbers are `keptSegments` (the numbers
+0 … 3k(k+1) not in `drop`, in order) and each drawn cell is the cell with that number in `segCells` (centre, then ring 1, ring 2, …). Moving
+`seg += 1`, starting the count elsewhere or testing another number changes the generated definition and breaks this theorem. -/
+theorem segment_numbering_translated (rings : ℕ) (drop : List ℕ) :
+    keptCells rings drop = Gen.keptCells rings drop ∧
+    (keptCells rings drop).map Prod.fst = keptSegments rings drop ∧
+    ∀ p ∈ keptCells rings drop, (segCells rings)[p.1]? = some p.2 :=
+  ⟨rfl, (keptCells_spec rings drop).1, (keptCells_spec rings drop).2⟩
+
 /-- `hex_ring(k)` lists `6k` cells -/
 theorem hex_ring_length (k : ℕ) : (hexRing k).length = 6 * k := hexRing_length k
 
